@@ -6,8 +6,8 @@ From Coq Require Import QArith Qabs.
    implementation's. *)
 Definition of_mode (m : mode QO) : cmode :=
   let c := core m in
-  mkCM (tab3 (c_rl c) (c_sz c) (c_rr c) (fun p j q => c_sl c j p q))
-       (match fac m with None => None | Some (di, s, U) => Some (tab2 di s U) end).
+  let a := tab3 (c_rl c) (c_sz c) (c_rr c) (fun p j q => c_sl c j p q) in
+  mkCM a (match fac m with None => None | Some (di, s, U) => Some (tab2 di s U) end) (maxabs_q (a_dat a)).
 Record case := mkCase { c_t : tensor QO; c_mu : nat; c_ans : list answer; c_shape : list nat; c_dense : list Q }.
 Definition qtol5 : Q := 1 # 100000.
 Definition cmp5 (x y : Q) : bool := Qle_bool (Qabs (x - y)) (qtol5 * (1 + Qabs x)).
